@@ -111,8 +111,15 @@ func (prop) Run(in json.RawMessage, _ string) core.Result {
 	res.Class = classOf(&inp.T, &inp.V)
 
 	// deterministic text: map iteration order varies between calls
+	// (a value holding a map with two or more entries is rendered 40 more times: reflect's MapKeys order of a small map is a
+	// rotation that starts at the first slot in 6 of 8 calls, so an order that leaks through shows in one re-rendering with
+	// probability >= 1/8 only; 40 repetitions miss a leak between two entries with probability < 0.5 %, between three < 0.002 %)
 	if !panicked {
-		for i := 0; i < 3; i++ {
+		reps := 3
+		if hasMultiEntryMap(&inp.V) {
+			reps = 40
+		}
+		for i := 0; i < reps; i++ {
 			t2, im2, p2, _ := renderOnce(inp.Self, inp.Via, x)
 			if p2 || t2 != text || !reflect.DeepEqual(im2, imports) {
 				res.GoViolations = append(res.GoViolations, "the rendered text is not deterministic: "+strconv.Quote(text)+" vs "+strconv.Quote(t2))
@@ -374,4 +381,25 @@ func simpler(t *TypeJ, v *ValJ) []ValJ {
 		out = out[:60]
 	}
 	return out
+}
+
+// hasMultiEntryMap: the value contains a map with at least two entries (only then can an iteration order show)
+func hasMultiEntryMap(v *ValJ) bool {
+	if len(v.M) >= 2 {
+		return true
+	}
+	for i := range v.M {
+		if hasMultiEntryMap(&v.M[i][0]) || hasMultiEntryMap(&v.M[i][1]) {
+			return true
+		}
+	}
+	for i := range v.L {
+		if hasMultiEntryMap(&v.L[i]) {
+			return true
+		}
+	}
+	if v.P != nil {
+		return hasMultiEntryMap(v.P)
+	}
+	return false
 }
